@@ -17,6 +17,8 @@ type InMemory struct {
 	namespaces []Cursor
 	attributes []Cursor
 	nodes      []Cursor
+	// true until the namespace nodes in scope at the parent have been copied
+	inheritPending bool
 }
 
 func initElement() InMemory {
@@ -43,63 +45,97 @@ func CreateInMemory(parse parser.Parser) (*InMemory, error) {
 	root.node = rootInMemoryNode{}
 	root.pos = 0
 	root.parent = &root
-	err := createInMemory(&root, parse, 0)
+	err := createInMemory(&root, parse)
 	return &root, err
 }
 
-func createInMemory(cursor *InMemory, parse parser.Parser, pos int) error {
-	n, isEnd, err := parse.Pull()
+// createInMemory consumes the parser's events in a loop, so the stack usage
+// does not depend on the number of nodes in the document.
+func createInMemory(root *InMemory, parse parser.Parser) error {
+	cursor := root
+	pos := 0
 
-	if errors.Is(err, io.EOF) {
-		return nil
+	for {
+		n, isEnd, err := parse.Pull()
+
+		if _, ok := n.(node.Namespace); !ok || isEnd || err != nil {
+			// The element's own namespace declarations are complete.
+			pos = inheritNamespaces(cursor, pos)
+		}
+
+		if errors.Is(err, io.EOF) {
+			return nil
+		}
+
+		if err != nil {
+			return err
+		}
+
+		if isEnd {
+			cursor = cursor.parent
+			continue
+		}
+
+		switch v := n.(type) {
+		case node.Namespace:
+			pos = addNamespace(v, cursor, pos)
+		case node.Attribute:
+			pos++
+			cursor.attributes = append(cursor.attributes, createNonElement(v, cursor, pos))
+		case node.Element:
+			pos++
+			next := createElement(v, cursor, pos)
+			cursor.nodes = append(cursor.nodes, next)
+			cursor = next
+		default:
+			pos++
+			cursor.nodes = append(cursor.nodes, createNonElement(v, cursor, pos))
+		}
 	}
-
-	if err != nil {
-		return err
-	}
-
-	if isEnd {
-		return createInMemory(cursor.parent, parse, pos)
-	}
-
-	switch v := n.(type) {
-	case node.Namespace:
-		pos = addNamespace(v, cursor, pos)
-	case node.Attribute:
-		pos++
-		cursor.attributes = append(cursor.attributes, createNonElement(v, cursor, pos))
-	case node.Element:
-		pos++
-		next, pos := createElement(v, cursor, pos)
-		cursor.nodes = append(cursor.nodes, next)
-		return createInMemory(next, parse, pos)
-	default:
-		pos++
-		cursor.nodes = append(cursor.nodes, createNonElement(v, cursor, pos))
-	}
-
-	return createInMemory(cursor, parse, pos)
 }
 
 func addNamespace(ns node.Namespace, cursor *InMemory, pos int) int {
-	toReplace := -1
-
-	for pos, i := range cursor.namespaces {
-		nsTest := i.(*InMemory).node.(node.Namespace)
+	for i, c := range cursor.namespaces {
+		nsTest := c.(*InMemory).node.(node.Namespace)
 
 		if nsTest.Prefix() == ns.Prefix() {
-			toReplace = pos
-			break
+			cursor.namespaces[i] = createNonElement(ns, cursor, c.Pos())
+			return pos
 		}
 	}
 
-	if toReplace < 0 {
-		cursor.namespaces = append(cursor.namespaces, createNonElement(ns, cursor, pos))
-		return pos + 1
+	pos++
+	cursor.namespaces = append(cursor.namespaces, createNonElement(ns, cursor, pos))
+	return pos
+}
+
+// inheritNamespaces gives the element its own namespace nodes for the bindings
+// of its parent that it did not override.  They are positioned after the
+// element's own declarations and before its attributes and children.
+func inheritNamespaces(cursor *InMemory, pos int) int {
+	if !cursor.inheritPending {
+		return pos
 	}
 
-	nsPos := cursor.namespaces[toReplace].(*InMemory).pos
-	cursor.namespaces[toReplace] = createNonElement(ns, cursor, nsPos)
+	cursor.inheritPending = false
+
+	for _, i := range cursor.parent.namespaces {
+		ns := i.(*InMemory).node.(node.Namespace)
+		overridden := false
+
+		for _, c := range cursor.namespaces {
+			if c.(*InMemory).node.(node.Namespace).Prefix() == ns.Prefix() {
+				overridden = true
+				break
+			}
+		}
+
+		if !overridden {
+			pos++
+			cursor.namespaces = append(cursor.namespaces, createNonElement(ns, cursor, pos))
+		}
+	}
+
 	return pos
 }
 
@@ -112,23 +148,14 @@ func createNonElement(node node.Node, parent *InMemory, pos int) *InMemory {
 	return &next
 }
 
-func createElement(node node.Node, parent *InMemory, pos int) (*InMemory, int) {
+func createElement(node node.Node, parent *InMemory, pos int) *InMemory {
 	next := initElement()
 	next.node = node
 	next.pos = pos
 	next.parent = parent
+	next.inheritPending = true
 
-	ns := make([]Cursor, len(parent.namespaces))
-	copy(ns, parent.namespaces)
-
-	next.namespaces = ns
-
-	for _, i := range next.namespaces {
-		pos++
-		i.(*InMemory).pos = pos
-	}
-
-	return &next, pos + len(next.namespaces)
+	return &next
 }
 
 func (c *InMemory) Pos() int {
